@@ -1,7 +1,14 @@
 //@unit props=C15,C13 tier=quick rlimit=30
 //@file src/gen/prng/xoshiro256_star_star.rs
+#![feature(allocator_api)]
 use vstd::prelude::*;
 use vstd::slice::SliceIndexSpec;
+// (the names below are only needed by the map_positional part of prelude/c13left_std.rs, which is one file for three units)
+use vstd::std_specs::iter::IteratorSpec;
+use std::collections::BTreeMap;
+use std::collections::BTreeSet;
+use std::collections::btree_map;
+use std::collections::btree_set;
 verus! {
 global size_of usize == 8;
 //@include prelude/std_contracts.rs
